@@ -162,6 +162,59 @@ func newExec(w *World, fn *ssa.Function, key string, props []string, discover bo
 	return x
 }
 
+// scanResultTypes records the result type of every call in fn by callee name, so that
+// resultof(Name, i) is typed on paths that return before the call (there it denotes an
+// unconstrained value).
+func (x *Exec) scanResultTypes(fn *ssa.Function) {
+	for _, b := range fn.Blocks {
+		for _, in := range b.Instrs {
+			ci, ok := in.(ssa.CallInstruction)
+			if !ok {
+				continue
+			}
+			cc := ci.Common()
+			if _, isB := cc.Value.(*ssa.Builtin); isB {
+				continue
+			}
+			var rt types.Type = cc.Signature().Results()
+			if cc.Signature().Results().Len() == 1 {
+				rt = cc.Signature().Results().At(0).Type()
+			} else if cc.Signature().Results().Len() == 0 {
+				continue
+			}
+			name, qual := callNames(cc)
+			for _, n := range []string{name, qual} {
+				if n != "" {
+					if _, have := x.resTypes[n]; !have {
+						x.resTypes[n] = rt
+					}
+				}
+			}
+		}
+	}
+}
+
+func callNames(cc *ssa.CallCommon) (name, qual string) {
+	if cc.IsInvoke() {
+		name = cc.Method.Name()
+		if n, ok := cc.Value.Type().(*types.Named); ok {
+			qual = n.Obj().Name() + "." + name
+		}
+	} else if f := cc.StaticCallee(); f != nil {
+		name = f.Name()
+		if recv := f.Signature.Recv(); recv != nil {
+			t := recv.Type()
+			if p, ok := t.(*types.Pointer); ok {
+				t = p.Elem()
+			}
+			if n, ok := t.(*types.Named); ok {
+				qual = n.Obj().Name() + "." + name
+			}
+		}
+	}
+	return
+}
+
 // verifyFunc generates the obligations of one function under contract.
 func (w *World) verifyFunc(c *Contract) (res *FnResult) {
 	res = &FnResult{Key: c.Key}
@@ -188,11 +241,13 @@ func (w *World) verifyFunc(c *Contract) (res *FnResult) {
 	}()
 	// pass 1: discover loop modification sets
 	d := newExec(w, fn, c.Key, c.Props, true)
+	d.scanResultTypes(fn)
 	d.runTop(fn, c)
 	// pass 2
 	x := newExec(w, fn, c.Key, c.Props, false)
 	x.loopMods = d.loopMods
 	x.loopRoots = d.loopRoots
+	x.scanResultTypes(fn)
 	x.runTop(fn, c)
 	for _, g := range c.Guards {
 		if !x.guardsSeen[g.Name] {
@@ -399,7 +454,8 @@ func (fr *Frame) checkPost(vs []*SVal) {
 		}
 		sort.Strings(names)
 		for _, n := range names {
-			if allowed[n] {
+			if allowed[n] || strings.HasPrefix(n, "$") {
+				// ($...: ghost state of the generator, not program state)
 				continue
 			}
 			srt := fr.cur.sorts[n]
